@@ -16,7 +16,7 @@ typedef struct { char id[24]; uint8_t addr; char length[16]; } cm_seg_t;
 typedef struct { char id[24]; char cv[12]; } cm_rev_t;
 typedef struct { uint8_t number, value; } cm_feature_t;
 typedef struct {
-	char id[24]; uint8_t uid[7]; int nfeatures; cm_feature_t features[3];
+	char id[24]; uint8_t uid[7]; int nfeatures; cm_feature_t features[12];
 	int in_track;
 	int npb; cm_bacc_t pb[3]; int npd; cm_dacc_t pd[3]; int nsb; cm_bacc_t sb[3]; int nsd; cm_dacc_t sd[3];
 	int nper; cm_periph_t per[3]; int nseg; cm_seg_t seg[4]; int nrev; cm_rev_t rev[2];
